@@ -743,6 +743,7 @@ class Program:
                         if c is not None:
                             c.upvar_names = list(st["rv"].get("fields") or [])
         self._cg = None
+        self._from_index = None
         self._prov = {}
         self._raw_index = defaultdict(list)
         for fn in self.fns.values():
@@ -783,8 +784,46 @@ class Program:
                         out.extend(self._raw_index.get(strip_generics(it["path"]), []))
         return out
 
+    def _residual_conversion(self, t):
+        """`?` on Result<_, E> in a function returning Result<_, F> converts with <F as From<E>>::from inside core's
+        generic from_residual; that call is not in the workspace's MIR, so the edge is added here."""
+        g = t.get("gargs") or []
+        if len(g) != 2:
+            return []
+
+        def err_ty(r):
+            m = re.match(r"^(?:std|core)::result::Result<(.*)>$", norm_ty(r))
+            if not m:
+                return None
+            parts, depth, cur = [], 0, ""
+            for ch in m.group(1):
+                if ch in "<([":
+                    depth += 1
+                elif ch in ">)]":
+                    depth -= 1
+                if ch == "," and depth == 0:
+                    parts.append(cur.strip())
+                    cur = ""
+                else:
+                    cur += ch
+            parts.append(cur.strip())
+            return parts[-1] if len(parts) == 2 else None
+        base = lambda x: re.sub(r"<.*>", "", x or "")
+        F_, E_ = err_ty(g[0]), err_ty(g[1])
+        if not F_ or not E_ or base(F_) == base(E_):
+            return []
+        if self._from_index is None:
+            self._from_index = defaultdict(list)
+            for fn in self.fns.values():
+                m = re.match(r"^<(.+) as std::convert::From<(.+)>>::from(#\d+)?$", fn.path)
+                if m:
+                    self._from_index[(base(m.group(1)), base(m.group(2)))].append(fn)
+        return self._from_index.get((base(F_), base(E_)), [])
+
     def call_targets(self, t):
         """Workspace functions a call terminator may invoke."""
+        if t.get("callee") == "std::ops::FromResidual::from_residual":
+            return self._residual_conversion(t)
         res = t.get("res")
         if res is not None:
             p = strip_generics(res)
